@@ -108,7 +108,11 @@ fn child_run<D: Distance>(dir: &Path, spec: &HistorySpec, start: usize, kill: &K
     let tenv = TestEnv::open_at(dir, DEFAULT_MAP, true).expect("open env");
     let (db, _raw) = interp::setup::<D>(&tenv).map_err(|_| ()).expect("setup");
     let isp = &spec.indexes[0];
-    let w = Writer::<D>::new(db, isp.index, isp.dims);
+    let mut w = Writer::<D>::new(db, isp.index, isp.dims);
+    // a private temp directory that survives the kill (and is used again by the next process)
+    let tmp = dir.join("arroy-tmp");
+    let _ = std::fs::create_dir_all(&tmp);
+    w.set_tmpdir(tmp);
     for (r, round) in spec.rounds.iter().enumerate().skip(start) {
         let v = r + 1;
         let mut wtxn = tenv.env.write_txn().expect("write txn");
@@ -276,7 +280,10 @@ fn verify_dir<D: Distance>(
     let result = (|| -> Result<usize, Fail> {
         let (db, raw): (Database<D>, _) = interp::setup::<D>(&tenv)?;
         let isp = &spec.indexes[0];
-        let w = Writer::<D>::new(db, isp.index, isp.dims);
+        let mut w = Writer::<D>::new(db, isp.index, isp.dims);
+        let tmp = dir.join("arroy-tmp");
+        let _ = std::fs::create_dir_all(&tmp);
+        w.set_tmpdir(tmp);
         let rtxn = tenv.env.read_txn().map_err(|e| Fail::Infra(format!("{e}")))?;
         // which admissible version is it?
         let ids: Vec<u32> = {
@@ -361,7 +368,24 @@ fn verify_dir<D: Distance>(
         w.add_item(&mut wtxn, 123_456_789, &vec![0.5; isp.dims]).map_err(|e| Fail::Infra(format!("{e:?}")))?;
         let b = BuildOpts { ix: 0, n_trees: Some(2), split_after: None, avail_mem: None, rng_seed: 5, threads: 1, cancel_at: None };
         match do_build::<D>(&w, &mut wtxn, &b, poll_bound(m.items.len() + 1, 8)) {
-            BuildOutcome::Ok { .. } => {}
+            BuildOutcome::Ok { .. } => {
+                // what the recovery build produced must be a valid index, too (leftovers of the killed
+                // process - e.g. in the private temp directory - must not leak into it)
+                let mut m2 = m.clone();
+                m2.items.insert(123_456_789, vec![0.5; isp.dims]);
+                m2.built = true;
+                m2.stale = false;
+                let cfg = RunCfg { structure: true, search_exact: true, ..Default::default() };
+                let mut st = CaseStats::default();
+                match catch(|| interp::check_built_index::<D>(spec.metric, db, raw, &wtxn, isp, &m2, Some(&b), 77, &cfg, &mut st)) {
+                    Ok(Ok(())) => {}
+                    Ok(Err(Fail::Violation(v))) => {
+                        return violation("crash:recovery-build", format!("{what}: the build on the recovered environment returned Ok but: [{}] {}", v.signature, v.message))
+                    }
+                    Ok(Err(e)) => return Err(e),
+                    Err(p) => return violation("crash:recovery-build", format!("{what}: reading the index built on the recovered environment panicked: {} at {}", p.message, p.location)),
+                }
+            }
             BuildOutcome::Err(e) => return violation("crash:not-buildable", format!("{what}: build on the recovered environment failed: {e}")),
             BuildOutcome::Panic(p) => return violation("crash:not-buildable", format!("{what}: build on the recovered environment panicked: {}", p.message)),
             _ => return violation("crash:not-buildable", format!("{what}: build on the recovered environment did not finish")),
@@ -539,17 +563,22 @@ pub fn run_c09(tier: Tier) -> i32 {
         "LMDB copy-on-write commit is trusted; what is checked is that arroy writes nothing outside the caller's transaction".into(),
     ];
     let g = c09_gen();
+    // a quarter of the histories are larger (hundreds of items, wider vectors): their builds stage tens of
+    // kilobytes of nodes in the temp files before a kill arrives
+    let g_big = GenCfg { first_ops: (200, 600), later_ops: (20, 150), id_pool: (250, 700), dims: vec![(1, vec![8, 16, 20])], rounds: (2, 4), ..c09_gen() };
     let max_kills = tier.pick(90, 400);
     let out = run_generated(
         "C09-crash",
         env_seed(),
         tier.pick(64, 800),
-        || (crate::gen::history(&g), any::<u64>()).prop_map(|(mut spec, kseed)| {
-            for r in spec.rounds.iter_mut() {
-                r.commit = true;
-            }
-            CrashCase { spec, kseed }
-        }),
+        || {
+            prop_oneof![3 => crate::gen::history(&g), 1 => crate::gen::history(&g_big)].prop_flat_map(|spec| (Just(spec), any::<u64>())).prop_map(|(mut spec, kseed)| {
+                for r in spec.rounds.iter_mut() {
+                    r.commit = true;
+                }
+                CrashCase { spec, kseed }
+            })
+        },
         |c: &CrashCase| json!({"history": c.spec.render(), "kill_seed": c.kseed}),
         move |c: &CrashCase, st: &mut CaseStats| with_metric!(c.spec.metric, D => crash_case::<D>(c, max_kills, st)),
         &mut report.acc,
